@@ -805,6 +805,48 @@ def xop_triples(node, op):
     return {"viol": viol, "n": n}
 
 
+def xop_rt_anc(node, op):
+    """['rt_anc', None, slot, how, k]: round trips (E7) of up to k tracked expressions that
+    contain the object in ``slot`` as a proper sub-node (by identity)."""
+    import pickle
+
+    from ufl.corealg.traversal import unique_pre_traversal
+
+    _, _, slot, how, k = op
+    a = node.get(slot)
+    if not isinstance(a, Expr):
+        raise Skip("rt_anc-not-expr")
+    viol = []
+    done = 0
+    for s_ in sorted(node.slots):
+        x = node.slots[s_]
+        if not isinstance(x, Expr) or x is a or s_ == slot:
+            continue
+        try:
+            if ops.is_cyclic(x) or not any(n_ is a for n_ in unique_pre_traversal(x)):
+                continue
+        except BaseException:  # noqa: B036
+            continue
+        done += 1
+        try:
+            y = pickle.loads(pickle.dumps(x, protocol=pickle.HIGHEST_PROTOCOL)) if how == "pickle" else eval(repr(x), dict(node.evalns))
+        except BaseException as ex:  # noqa: B036
+            if isinstance(ex, (KeyboardInterrupt, RecursionError, MemoryError)):
+                raise
+            viol.append({"clause": "E7-" + how + "-raises", "a": s_, "b": None, "types": type(x).__name__ + ":" + type(ex).__name__})
+            continue
+        tn = type(x).__name__ + "/" + type(y).__name__
+        if not _eq(y, x) or not _eq(x, y):
+            viol.append({"clause": "E7-" + how + "-equal", "a": s_, "b": None, "types": tn})
+        elif hash(x) != hash(y):
+            viol.append({"clause": "E7-" + how + "-hash", "a": s_, "b": None, "types": tn})
+        elif repr(x) != repr(y):
+            viol.append({"clause": "E7-" + how + "-repr", "a": s_, "b": None, "types": tn})
+        if done >= k:
+            break
+    return {"viol": viol, "stats": {"pairs": done, "equal": 0, "equal_distinct": 0}}
+
+
 def xop_roundtrip(node, op):
     """['roundtrip', out, slot, how] how in {'pickle','evalrepr'}: E7 on one object.
 
